@@ -83,6 +83,14 @@ class WindowRoles:
                 sig = fn.get('sig', '')
                 if '-> std::option::Option<%s>' % self.period_ty in sig and sig.count(',') == 1 and (', %s)' % self.period_ty) in sig:
                     cands.append(fn['name'])
+        if len(cands) > 1:
+            # a wrapper that only reaches another candidate is not the mapping itself: keep the candidates that call no other candidate
+            def calls_other(nm):
+                gb = f.generic_body(W + '::<T>::' + nm)
+                return gb is not None and any((t['callee'].get('def') or '') in {W + '::<T>::' + o for o in cands if o != nm} for _, t in Body(gb).calls())
+            leaves = [nm for nm in cands if not calls_other(nm)]
+            if len(leaves) == 1:
+                cands = leaves
         if len(cands) != 1:
             raise Broken('index -> slot mapping of Window not identified (candidates: %s)' % cands)
         self.slot_fn = cands[0]
